@@ -28,7 +28,7 @@ for k,v in sorted(e.items()):
 for d in sorted(os.listdir('seeded')):
     m=os.path.join('seeded',d,'meta.json')
     if os.path.exists(m):
-        print('\t'.join(['seeded-'+d, os.path.abspath(os.path.join('seeded',d,'patch.diff')), d, '']))
+        print('\t'.join(['seeded-'+d, os.path.abspath(os.path.join('seeded',d,'patch.diff')), d[:3], '']))
 PY
 while IFS="$(printf '\t')" read -r name patch prop expect; do run_one "$name" "$patch" "$prop" "$expect"; done < "$scratch/list.txt"
 echo "selftest: $n mutants, failures=$fail"
